@@ -328,8 +328,65 @@ fn main() {
                 }
             }
         }
+        // family 3: the two signature-exempt uploads (their own code path), every request body framing
+        let mut exempt_n = 0u64;
+        for (m, t) in [("PUT", "/vmAgentLog"), ("POST", "/machine/?comp=telemetrydata"), ("PUT", "/VMAGENTLOG")] {
+            for (bl, ch) in [(0usize, None), (1, None), (11, Some(0usize)), (1023, Some(7)), (65536, Some(4096)), (102400, None), (102401, None), (300000, Some(65536)), (1 << 20, None)] {
+                for hset in [0usize, 1] {
+                    id += 1;
+                    sport = if sport >= 39000 { 36000 } else { sport + 1 };
+                    let body = pattern(bl, id);
+                    let hs = header_sets();
+                    let mut hv: Vec<(&str, &[u8])> = vec![("Host", b"metadata")];
+                    hv.extend(hs[hset].iter().cloned());
+                    let cv;
+                    let chunked: Option<&[usize]> = match ch {
+                        None => None,
+                        Some(0) => Some(&[]),
+                        Some(n) => {
+                            cv = vec![n];
+                            Some(&cv)
+                        }
+                    };
+                    let raw = build_request(m, t, &hv, Some(&body), chunked);
+                    let cur = w.hosts.ws.cursor();
+                    let resp = match w.connect(Some(sport), Some(&rec)) {
+                        Ok(mut c) => {
+                            let r = c.send(&raw).map_err(|e| e.to_string()).and_then(|_| c.read_response(false, Duration::from_secs(20)));
+                            c.close();
+                            r
+                        }
+                        Err(e) => Err(format!("connect: {e}")),
+                    };
+                    let got = w.hosts.ws.requests_since(cur);
+                    evals += 1;
+                    exempt_n += 1;
+                    nontrivial.insert(format!("exempt{m}{t}{bl}{:?}{hset}", ch));
+                    let case = json!({"family": "exempt-upload", "method": m, "target": t, "request_body": bl, "chunk": ch, "client_headers": hset});
+                    let sent: Vec<(String, Vec<u8>)> = hs[hset].iter().map(|(n, v)| (n.to_string(), v.to_vec())).collect();
+                    match got.first() {
+                        None => res.violation("request-not-relayed", &format!("exempt upload not relayed; client got {:?}", resp.as_ref().map(|r| r.status())), case),
+                        Some((_, hm)) => {
+                            if hm.method() != m || hm.target() != t {
+                                res.violation("request:method-or-target-changed", &format!("host saw {} {}", hm.method(), hm.target()), case.clone());
+                            }
+                            if hm.body != body {
+                                res.violation("request:body-changed", &format!("exempt upload: host saw a body of {} bytes, client sent {}", hm.body.len(), body.len()), case.clone());
+                            }
+                            if comparable(&hm.headers, true) != comparable(&sent, true) {
+                                res.violation("request:client-headers-changed", "exempt upload: client headers changed", case.clone());
+                            }
+                            if resp.as_ref().map(|r| r.status()) != Ok(200) {
+                                res.violation("response:status-changed", &format!("{:?}", resp.as_ref().map(|r| r.status())), case);
+                            }
+                        }
+                    }
+                }
+            }
+        }
+        res.cov("exempt_upload_requests", exempt_n);
         res.cov("pipelines", pipelines);
-        res.cov("rule", format!("one request per fresh attributed connection for the product of 5 methods x {} client header sets (repeated names in three spellings, empty value, punctuation) x {} request body framings (0..102400 bytes, content-length / chunks of 1, 7, 4096 / single chunk) x {} host answers (status 200/204/404/500, body 0/1/70000 bytes covering all byte values, content-length or chunked, TCP segment boundary at 0/1/2/4095/4096/4097), with a key latched and (slice) without; plus {} pipelines of 1-3 back-to-back requests on 1 and 2 concurrent keep-alive connections; the host's answer is a function of the request target and echoes the request id", hsets, req_bodies.len(), resps.len(), pipelines));
+        res.cov("rule", format!("one request per fresh attributed connection for the product of 5 methods x {} client header sets (repeated names in three spellings, empty value, punctuation) x {} request body framings (0..102400 bytes, content-length / chunks of 1, 7, 4096 / single chunk) x {} host answers (status 200/204/404/500, body 0/1/70000 bytes covering all byte values, content-length or chunked, TCP segment boundary at 0/1/2/4095/4096/4097), with a key latched and (slice) without; plus {} pipelines of 1-3 back-to-back requests on 1 and 2 concurrent keep-alive connections; plus the two signature-exempt uploads with 9 body framings (0 bytes .. 1 MiB, content-length and chunked) x 2 header sets; the host's answer is a function of the request target and echoes the request id", hsets, req_bodies.len(), resps.len(), pipelines));
     } else {
         // ---------------- C15 ----------------
         w.set_key(Some(K1));
@@ -412,7 +469,53 @@ fn main() {
                 }
             }
         }
-        res.cov("rule", "body lengths limit-1, limit, limit+1, 2*limit for limit = 102400 on 7 non-exempt (method, URL) pairs incl. near misses of the exempt URLs, and for limit = 104857600 on the exempt uploads (thorough: both uploads and their upper-case variants, both framings; quick: PUT /vmAgentLog at limit and limit+1 with content-length), each as content-length and as chunked; relayed bodies compared by length and SHA-256; non-trivial = over the limit".to_string());
+        // keep-alive sequences: every ordered pair of request kinds on one connection; each request
+        // is judged by the limit of its own method and URL
+        if std::env::var("VERIF_REPLAY").is_err() {
+            let kinds: Vec<(&'static str, &'static str, usize, usize, bool)> = vec![
+                ("PUT", "/vmAgentLog", high, 5, false),
+                ("POST", "/t?id=9", low, 5, false),
+                ("POST", "/t?id=9", low, low + 1, false),
+                ("POST", "/t?id=9", low, low + 1, true),
+                ("PUT", "/vmAgentLog", high, low + 1, false),
+                ("POST", "/machine/?comp=telemetrydata", high, 2 * low, true),
+            ];
+            for a in &kinds {
+                for b in &kinds {
+                    sport = if sport >= 39000 { 36000 } else { sport + 1 };
+                    let mut c = w.connect(Some(sport), Some(&rec)).unwrap();
+                    for (step, k) in [a, b].iter().enumerate() {
+                        let (m, t, limit, len, chunked) = **k;
+                        let body = pattern(len, 5);
+                        let cs = [65536usize];
+                        let raw = build_request(m, t, &[("Host", b"metadata")], Some(&body), if chunked { Some(&cs) } else { None });
+                        let cur = w.hosts.ws.cursor();
+                        let _ = c.send_watchful(&raw);
+                        let resp = c.read_response(false, Duration::from_secs(30)).map(|m| m.status());
+                        std::thread::sleep(Duration::from_millis(5));
+                        let bytes = w.hosts.ws.bytes_since(cur);
+                        let got = w.hosts.ws.requests_since(cur);
+                        evals += 1;
+                        let case = json!({"family": "keepalive-pair", "first": [a.0, a.1, a.3, a.4], "second": [b.0, b.1, b.3, b.4], "step": step});
+                        if len > limit {
+                            nontrivial.insert(case.to_string());
+                            if bytes != 0 {
+                                res.violation("over-limit-body-relayed:keepalive", &format!("request {} on a kept-alive connection: {bytes} bytes of a {len}-byte body (limit {limit}) reached the host", step + 1), case.clone());
+                            }
+                            if !matches!(resp, Ok(s) if (400..500).contains(&s)) {
+                                res.violation("over-limit-not-answered-4xx:keepalive", &format!("{:?}", resp), case.clone());
+                            }
+                            break; // the server may close the connection after refusing a body
+                        } else if !(resp == Ok(200) && got.len() == 1 && got[0].1.body == body) {
+                            res.violation("within-limit-body-not-relayed-intact:keepalive", &format!("request {}: status {:?}, {} requests at host", step + 1, resp, got.len()), case.clone());
+                            break;
+                        }
+                    }
+                    c.close();
+                }
+            }
+        }
+        res.cov("rule", "body lengths limit-1, limit, limit+1, 2*limit for limit = 102400 on 7 non-exempt (method, URL) pairs incl. near misses of the exempt URLs, and for limit = 104857600 on the exempt uploads (thorough: both uploads and their upper-case variants, both framings; quick: PUT /vmAgentLog at limit and limit+1 with content-length), each as content-length and as chunked; plus every ordered pair of 6 request kinds (exempt/non-exempt, small/over the low limit, both framings) on one keep-alive connection; relayed bodies compared by length and SHA-256; non-trivial = over the limit".to_string());
     }
 
     for p in world::take_panics() {
